@@ -330,10 +330,11 @@ def run(ctx: Ctx, repo: Repo, tier: str) -> None:
               "typing: alias[args] rebuilds the generic; Tuple[()] has empty __args__; bare aliases have no __args__ (CPython >= 3.11)",
               "mypy_extensions.TypedDict(name, fields) builds a TypedDict with those annotations (total=True)",
               "sqlite: INSERT ... VALUES (?, ...) binds parameters to the table's columns in declaration order; SELECT returns columns in list order")
-    rule_type_round_trip(ctx, repo)
-    rule_structure_only(ctx, repo)
-    rule_position_independent(ctx, repo)
-    rule_trace_round_trip(ctx, repo)
-    rule_row_shape(ctx, repo)
-    rule_hidden_builtins(ctx, repo)
-    rule_dumps(ctx, repo)
+    ctx.attempt(rule_type_round_trip, ctx, repo)
+    ctx.attempt(rule_structure_only, ctx, repo)
+    ctx.attempt(rule_position_independent, ctx, repo)
+    ctx.attempt(rule_trace_round_trip, ctx, repo)
+    ctx.attempt(rule_row_shape, ctx, repo)
+    ctx.attempt(rule_hidden_builtins, ctx, repo)
+    ctx.attempt(rule_dumps, ctx, repo)
+    ctx.settle()
